@@ -274,28 +274,38 @@ def load_strictness(ctx, rep, rule: str) -> None:
 def group_fields(ctx, rep, rule: str) -> None:
     repo = ctx.repo
     key = repo.method(DS, "_construct_param_group_key")
+    # decided by concrete interpretation: for every order of the group's parameters (and names that sort differently from their
+    # positions, plus names of parameters outside the group) the key is "/".join(sorted(names of the group's parameters))
+    import itertools
+
+    from ..guards import Interp, Raised, Returned, Unsupported
+    from .c17 import _module_const_resolver
+
+    res = _module_const_resolver(repo, key.module)
+    body = [s_ for s_ in key.node.body if not (isinstance(s_, ast.Expr) and isinstance(s_.value, ast.Constant))]
+    gp, mp = [p_ for p_ in key.params if p_ not in ("self", "cls")][:2]
+    names = {"P0": "w.b", "P1": "a.z", "P2": "a.b", "P3": "zz"}
+    bad, n_cases = [], 0
+    for k in (1, 2, 3):
+        for order in itertools.permutations(["P0", "P1", "P2"], k):
+            n_cases += 1
+            group = {res("PARAMS"): list(order), "lr": 0.1}
+            try:
+                Interp({gp: group, mp: dict(names)}, resolve_name=res).run(body, lambda e_: ast.unparse(e_))
+                got = None
+            except Returned as r_:
+                got = r_.value
+            except Raised as r_:
+                got = f"raise {r_.exc_name}"
+            except Unsupported as u:
+                raise AnalysisError(f"{rule}: _construct_param_group_key outside the interpreted sub-language: {u}") from u
+            parts = sorted(names[o] for o in order)
+            okc = isinstance(got, str) and any(got == sep.join(parts) for sep in ("/", "|", ",", ";", "//", "::")) if k > 1 else got == parts[0]
+            if not okc and len(bad) < 2:
+                bad.append((order, got))
+    ok = not bad
     rets = [n for n in A.walk_no_nested(key.node) if isinstance(n, ast.Return)]
-
-    def deref(e):
-        while isinstance(e, ast.Name):
-            ds = A.assignments_to(key.node, e.id)
-            if len(ds) != 1:
-                break
-            e = ds[0]
-        return e
-
-    ok = False
-    if len(rets) == 1:
-        v = deref(rets[0].value)
-        if isinstance(v, ast.Call) and isinstance(v.func, ast.Attribute) and v.func.attr == "join" and isinstance(v.func.value, ast.Constant) and isinstance(v.func.value.value, str) and v.func.value.value and len(v.args) == 1:
-            srt = deref(v.args[0])
-            if isinstance(srt, ast.Call) and isinstance(srt.func, ast.Name) and srt.func.id == "sorted" and len(srt.args) == 1 and not srt.keywords:
-                gen = deref(srt.args[0])
-                if isinstance(gen, (ast.GeneratorExp, ast.ListComp)) and len(gen.generators) == 1 and not gen.generators[0].ifs:
-                    g = gen.generators[0]
-                    var = g.target.id if isinstance(g.target, ast.Name) else None
-                    ok = _norm(g.iter) == f"{key.params[0]}[PARAMS]" and _norm(gen.elt) == f"{key.params[1]}[{var}]"
-    rep.ob(rule, "group-key-is-sorted-parameter-names", ok, key.loc(), f"param-group key `{_norm(rets[0].value) if rets else None}` must be the joined *sorted* names of the group's parameters only")
+    rep.ob(rule, "group-key-is-sorted-parameter-names", ok, key.loc(), f"param-group key on {n_cases} concrete groups (every order of 1-3 parameters whose names sort differently from their positions; other parameters present in the name map) must be the joined *sorted* names of the group's parameters only" + (f"; for parameter order {bad[0][0]} the code gives {bad[0][1]!r}" if bad else ""))
     sd = repo.method(DS, "distributed_state_dict")
     comps = [n for n in ast.walk(sd.node) if isinstance(n, ast.DictComp) and _norm(n.generators[0].iter) == "group.items()"]
     ok = len(comps) == 1 and [_norm(c) for c in comps[0].generators[0].ifs] == ["k != PARAMS"] and _norm(comps[0].key) == "k" and "deepcopy(v)" in _norm(comps[0].value)
